@@ -42,7 +42,8 @@ PROPS = {
         'rule': 'same histories as C04 (capacities 1..5 MB, item sizes 0, exactly 5% of capacity, 5% - k, random, larger than the '
                 'capacity; one third of the histories contain over-size items); after every put the harness lists the database: item '
                 'count, bytes held, persisted counter, farthest kept key, dropped keys; plus two forced two-put interleavings through '
-                'the yield hook; non-trivial = the store was non-empty; distinct = distinct operation lines',
+                'the yield hook; non-trivial = the store was non-empty; distinct = distinct operation lines'
+                ' Forced schedule concprune: put A goes over capacity and waits in the fsync of its pruning batch (the log file sync is held back by the file system wrapper); put B of a near item runs meanwhile and, if it comes to prune too, is held at prune.beforeSubtract until A has returned; persisted and held are read at the end.',
         'trusted': ['pebble (ordered iteration, atomic batch) modelled as a sorted list', 'float64(cap)*0.05 modelled as cap/20 (exact for capacities that are multiples of 1 MB below 2^53; compared on every put)'],
         'assumptions': ['32-byte content ids'],
         'explanation': 'invariant theorems over all sequential put histories (St.run_inv, run_bounded) + exact step equality with the '
@@ -70,7 +71,8 @@ PROPS = {
         'rule': 'findBiggestSameNumber on ALL pairs of lists of length 0..3 over {0,1,2} (1600 pairs, exhaustive for that domain) and random '
                 'lists over 0..255; getOrStoreHighestVersion call histories of 1..3 calls on a fresh cache for every own-list x peer '
                 'advertisement (every short list, missing entry, undecodable entry) and random ones; non-trivial = both lists non-empty; '
-                'distinct = distinct lines',
+                'distinct = distinct lines'
+                ' Framing: for the versions 0..3 placed in the cache, encodeUtpContent then decodeUtpContent of 0 / 1 / 127 / 128 / 1000 / 2000 / 70000 bytes must give the bytes back (which framing a version above 1 uses is left open).',
         'trusted': ['go-pkgz expirable cache modelled as Option (one peer); ENR entry decoding (rlp) trusted'],
         'assumptions': ['own version list non-empty (currentVersions[0] is read unguarded)'],
         'explanation': 'theorems about the ideal negotiation for all lists and all call histories; the code is compared with the model '
@@ -193,7 +195,8 @@ PROPS = {
                 'ACCEPT encodings; offer() to a silent peer (RPC timeout); gossip with a free and with a full offer queue; 8 real gossip-initiated '
                 'transfers through 3 slots between two real instances; after each, the number of slots obtainable once activity has ceased must equal '
                 'the limit; non-trivial = sequences of more than 3 operations / every scripted outcome; distinct = distinct lines'
-                ' Inbound: two accepted offers (v0 and v1) hold two of three slots while the node waits; all slots are back after the 15 s connect timeout of peers that never connect, after Stop() while waiting, and after an offer that arrives after Stop().',
+                ' Inbound: two accepted offers (v0 and v1) hold two of three slots while the node waits; all slots are back after the 15 s connect timeout of peers that never connect, after Stop() while waiting, and after an offer that arrives after Stop().'
+                " permitops lines are also judged by an exactly-once accounting on the implementation's own answers (a grant while `limit` are out, free + out != limit).",
         'trusted': ['golang.org/x/sync/semaphore as a counter; utp-go'],
         'assumptions': ['RPC-initiated offers use NoPermit by design and are outside the bound', 'dial/read failures after an accepted offer wait for 15 s timeouts and are exercised in the thorough tier only'],
         'explanation': 'theorems held_le_limit, conservation, quiescent_full over all interleavings; step equality for the controller; "slot returned" monitors per outcome on the real code',
@@ -242,7 +245,8 @@ PROPS = {
                 'file system is cloned as it is (unsynced data kept) and after ResetToSyncedState (unsynced data dropped); a fresh pebble + NewStorage is '
                 'opened on each clone; the observation (reopen ok, items with value digests, counter record, bytes present, radius) must equal '
                 'StX.reopen of the image after SOME prefix of the committed batches of the model; non-trivial = the explaining prefix is non-empty; '
-                'distinct = distinct lines',
+                'distinct = distinct lines'
+                ' Torn writes: for every cut that is a write to a write-ahead log file, 5 (thorough 9) further images in which only a prefix of the bytes of that write reached the file (unsynced data kept); every log write is among the cuts.',
         'trusted': ['pebble: atomic batches, loss of at most a suffix of unsynced batches (checked by the prefix relation on every run, not proved)', 'vfs.StrictMem gives the two extremes per cut (all unsynced kept / all dropped), not per-file mixtures'],
         'assumptions': ['sequential histories (one writer)', '32-byte ids'],
         'explanation': 'theorems: every image after every batch is consistent (crash_images_ok), reopen on a consistent image gives a store satisfying the full invariant, prunes when '
@@ -307,7 +311,8 @@ PROPS = {
                 'items from the same pool incl. repeated and pre-stored keys. net: the three block getters of a real node whose only peer '
                 '(real discv5 + uTP over an in-memory link) serves genuine/mutated/foreign content and honest/forged/foreign/no headers. '
                 'non-trivial = the content decodes (vc), the source answered with a decodable header (orc), something was stored or '
-                'refused (gate), content was present locally or remotely (get); distinct = distinct input lines among those',
+                'refused (gate), content was present locally or remotely (get); distinct = distinct input lines among those'
+                " Content is judged by an independent decoding (generated SSZ container, then go-ethereum rlp / UnmarshalBinary per field), never by the repository's Decode* helpers; field mutations include uncles / transaction / withdrawal / receipt fields that are not valid RLP at all and every single-bit flip of a short uncles field.",
         'trusted': ['go-ethereum rlp / Header.Hash / DeriveSha / CalcUncleHash, the fastssz containers and the header-proof check of C03 are '
                     'parameters of the model (Hc.Env); the harness evaluates them once per case, outside the validator, and sends the results',
                     HASHES],
@@ -416,7 +421,8 @@ PROPS = {
                 'TraverseTrieNode on 600 decoded random nodes. In child processes (a panic in a talk goroutine cannot be recovered): 300 uTP packets '
                 '(truncated, every type/version nibble, extension chains) into the uTP talk handler directly and over the wire followed by a real 40 kB uTP '
                 'transfer; ~40 TALKREQs per network sent over the in-memory discv5 link, each followed by a ping. thorough: x20. non-trivial = the byte '
-                'string has more than 2 bytes (talk/resp/oc), the key more than 1 byte (get/put/val), a non-empty path (trav); distinct = distinct lines',
+                'string has more than 2 bytes (talk/resp/oc), the key more than 1 byte (get/put/val), a non-empty path (trav); distinct = distinct lines'
+                ' After the look-ups every beacon vector is put again and read back twice, with look-ups of slot+1 / slot-1 in between (a look-up path that keeps a lock wedges the next writer).',
         'trusted': ['rlp, ztyp/zrnt SSZ containers, ping-extension payloads, ENR verification, Merkle/Keccak checks, pebble and utp-go are dependencies: not modelled '
                     'byte for byte (model outcome `handled` = value or error), assumed panic-free and sampled by the correspondence run',
                     'fastssz helpers (ReadOffset, DecodeDynamicLength, UnmarshalDynamic, DivideInt2, ValidateBitlist) and go-bitfield Len/BitIndices are re-modelled in Lean',
